@@ -42,7 +42,7 @@ pub const DEF: CheckDef = CheckDef {
         "case-insensitive matching is taken from the property's anchored mechanism (extract.rs regex_matcher); the statement and doc/import.ja.md do not mention it (constant CASE_FOLD_IS_MUST)",
         "alphabets avoid empty / non-participating capture groups and a rule with both `payee:` and a payee capture; AND elements with several capturing fields, or with a `payee` field next to a payee-capturing field, ARE included (Viseca / Camt053; okane applies the fields of an element in the fixed order of RewriteField since commit f3b005d) and are judged with a set-valued reference: an element fails iff some field fails under every reading, a failed element contributes no captures, and where two readings of a MATCHING element differ both are admitted (DON'T-CARE)",
         "the CSV alphabet has no capture group in `category` (the CSV importer deliberately discards captures of category / secondary_commodity; not judged)",
-        "camt053: the payee printed when no rule set one, and the code when the record carries an AcctSvcrRef, are not judged",
+        "camt053: the payee printed when no rule set one is not judged; for records carrying an AcctSvcrRef the printed code is judged (MUST be the capture) whenever a matching rule captures a code, and not judged (the reference is the importer's default, outside the statement) when none does",
     ],
     shards: 64,
     hang_s: 20,
@@ -545,6 +545,7 @@ impl Veh {
 }
 
 const SRC_ACCOUNT: &str = "Assets:Bank";
+const ACCT_SVCR_REF: &str = "REF-1";
 
 /// Rule alphabet for the importers whose records have a payee and a category (CSV, Viseca).
 const PC_RULES: [RuleDef; 12] = [
@@ -620,7 +621,7 @@ struct Rec {
     payee: Option<&'static str>,
     fields: Vec<(F, &'static str)>,
     credit: bool,
-    /// camt053: record carries an AcctSvcrRef (becomes the code; not judged)
+    /// camt053: record carries an AcctSvcrRef (printed as the code unless a rule captures one; that default is not judged)
     acct_ref: bool,
     /// camt053: entry without transaction details
     no_details: bool,
@@ -706,7 +707,7 @@ fn source_text(veh: Veh, rec: &Rec) -> String {
             if !rec.no_details {
                 s.push_str("<NtryDtls><Btch><NbOfTxs>1</NbOfTxs></Btch><TxDtls><Refs>");
                 if rec.acct_ref {
-                    s.push_str("<AcctSvcrRef>REF-1</AcctSvcrRef>");
+                    s.push_str(&format!("<AcctSvcrRef>{}</AcctSvcrRef>", ACCT_SVCR_REF));
                 }
                 s.push_str("<EndToEndId>NOTPROVIDED</EndToEndId></Refs>");
                 s.push_str(&format!("<Amt Ccy=\"CHF\">100</Amt><CdtDbtInd>{}</CdtDbtInd>\n<RltdPties>", ind));
@@ -999,6 +1000,9 @@ struct Judged {
     or_ambiguous: bool,
     override_seen: bool,
     failed_capturing_element: bool,
+    /// camt053 record with an AcctSvcrRef: a code capture is admitted in every result (code judged) / in none or some (default not judged)
+    ref_with_capture: bool,
+    ref_without_capture: bool,
 }
 
 /// Compare a printed transaction with the reference fold of `rules` over `rec`.
@@ -1009,7 +1013,7 @@ fn judge_fold(tag: &str, veh: Veh, rules: &[&RuleDef], rec: &Rec, printed: &Prin
     let (case_sensitive, _) = fold_ref(rules, rec, Sem { case_insensitive: false, ..sem });
     let thread_dependent = unthreaded != accept;
     let case_dependent = case_sensitive != accept;
-    let mk = |outcome: Outcome| Judged { outcome, thread_dependent, case_dependent, or_ambiguous: info.ambiguous, override_seen: info.account_rules >= 2, failed_capturing_element: info.failed_capturing_element };
+    let mk = |outcome: Outcome| Judged { outcome, thread_dependent, case_dependent, or_ambiguous: info.ambiguous, override_seen: info.account_rules >= 2, failed_capturing_element: info.failed_capturing_element, ref_with_capture: rec.acct_ref && accept.iter().all(|s| s.code.is_some()), ref_without_capture: rec.acct_ref && accept.iter().any(|s| s.code.is_none()) };
 
     // the posting to the configured account, and the counter-posting
     if printed.posts.len() != 2 {
@@ -1029,7 +1033,9 @@ fn judge_fold(tag: &str, veh: Veh, rules: &[&RuleDef], rec: &Rec, printed: &Prin
                 return Some(("payee", p.to_string(), printed.payee.clone()));
             }
         }
-        if !rec.acct_ref && printed.code != st.code {
+        // a captured code must be printed; without a capture the code is judged unless the record carries an AcctSvcrRef
+        // (camt053 prints that reference by default, which is outside the statement)
+        if (st.code.is_some() || !rec.acct_ref) && printed.code != st.code {
             return Some(("code", format!("{:?}", st.code), format!("{:?}", printed.code)));
         }
         let want_acct = st.account.as_deref().unwrap_or(unknown);
@@ -1080,6 +1086,8 @@ fn judge_fold(tag: &str, veh: Veh, rules: &[&RuleDef], rec: &Rec, printed: &Prin
             "code" => {
                 if printed.code.as_ref().map_or(false, |c| info.dead_captures.contains(c)) {
                     "captured-by-failed-element"
+                } else if rec.acct_ref && st.code.is_some() && printed.code.as_deref() == Some(ACCT_SVCR_REF) {
+                    "capture-overridden-by-acct-svcr-ref"
                 } else if st.code.is_some() && printed.code.is_none() {
                     "capture-dropped"
                 } else if st.code.is_none() {
@@ -1149,7 +1157,7 @@ fn admitted(rules: &[&RuleDef], rec: &Rec) -> String {
 
 fn fold_case(ctx: &mut Ctx, veh: Veh, rules: &[&RuleDef], rec: &Rec) {
     let path = "stmt/";
-    let mut flags = (false, false, false, false, false);
+    let mut flags = (false, false, false, false, false, false, false);
     let fl = &mut flags;
     ctx.case(
         || format!("[B {}] configuration:\n{}{}source {}:\n{}reference admits: {}", veh.name(), base_config(veh, path), rewrite_yaml(rules), veh.file(), source_text(veh, rec), admitted(rules, rec)),
@@ -1168,7 +1176,7 @@ fn fold_case(ctx: &mut Ctx, veh: Veh, rules: &[&RuleDef], rec: &Rec) {
                 Err(e) => return Outcome::violation(format!("fold/{}/unreadable-output", veh.name()), e),
             };
             let j = judge_fold("fold", veh, rules, rec, &printed, SRC_ACCOUNT);
-            *fl = (j.thread_dependent, j.case_dependent, j.or_ambiguous, j.override_seen, j.failed_capturing_element);
+            *fl = (j.thread_dependent, j.case_dependent, j.or_ambiguous, j.override_seen, j.failed_capturing_element, j.ref_with_capture, j.ref_without_capture);
             j.outcome
         },
     );
@@ -1183,6 +1191,12 @@ fn fold_case(ctx: &mut Ctx, veh: Veh, rules: &[&RuleDef], rec: &Rec) {
     }
     if flags.3 {
         ctx.count("fold_cases_with_account_override", 1);
+    }
+    if flags.5 {
+        ctx.count("fold_cases_acct_svcr_ref_and_code_capture_code_judged", 1);
+    }
+    if flags.6 {
+        ctx.count("fold_cases_acct_svcr_ref_without_code_capture_code_not_judged", 1);
     }
     if flags.4 {
         ctx.count("fold_cases_with_a_failed_capturing_element_in_a_matching_rule", 1);
